@@ -11,24 +11,45 @@ variable {ι σ ρ : Type}
 theorem step_nil {c : Cfg ι σ ρ} {t : Nat} (h : c.thr t = []) : step c t = c := by
   simp [step, h]
 
+theorem isDone_some {p : Prog σ ρ} {r : ρ} (h : p.isDone = some r) : p = .done r := by
+  cases p <;> simp [Prog.isDone] at h
+  subst h; rfl
+
+theorem isDone_done (r : ρ) : (Prog.done r : Prog σ ρ).isDone = some r := rfl
+
+/-- the operation at the head of `t` completes in this step -/
+theorem step_complete {c : Cfg ι σ ρ} {t : Nat} {it : Item ι σ ρ} {rest : List (Item ι σ ρ)} {r : ρ}
+    (h : c.thr t = it :: rest) (hd : (it.rem.adv c.st).2.1.isDone = some r) :
+    step c t = { st := (it.rem.adv c.st).1, thr := setThr c.thr t rest, log := c.log ++ [(t, it.op, r)] } := by
+  simp [step, h, hd]
+
+/-- the operation at the head of `t` runs one section and is not finished -/
+theorem step_continue {c : Cfg ι σ ρ} {t : Nat} {it : Item ι σ ρ} {rest : List (Item ι σ ρ)}
+    (h : c.thr t = it :: rest) (hd : (it.rem.adv c.st).2.1.isDone = none) :
+    step c t = { st := (it.rem.adv c.st).1,
+                 thr := setThr c.thr t ({ op := it.op, rem := (it.rem.adv c.st).2.1, pc := it.pc + 1,
+                                          held := it.held ++ (it.rem.adv c.st).2.2 } :: rest),
+                 log := c.log } := by
+  simp [step, h, hd]
+
 theorem step_done {c : Cfg ι σ ρ} {t : Nat} {it : Item ι σ ρ} {rest : List (Item ι σ ρ)} {r : ρ}
     (h : c.thr t = it :: rest) (hr : it.rem = .done r) :
     step c t = { st := c.st, thr := setThr c.thr t rest, log := c.log ++ [(t, it.op, r)] } := by
-  simp [step, h, hr]
+  simp [step, h, hr, Prog.adv, Prog.isDone]
 
 theorem step_sec_done {c : Cfg ι σ ρ} {t : Nat} {it : Item ι σ ρ} {rest : List (Item ι σ ρ)}
     {lk : Lock} {upd : σ → σ} {next : σ → Prog σ ρ} {r : ρ}
     (h : c.thr t = it :: rest) (hr : it.rem = .sec lk upd next) (hn : next c.st = .done r) :
     step c t = { st := upd c.st, thr := setThr c.thr t rest, log := c.log ++ [(t, it.op, r)] } := by
-  simp [step, h, hr, hn]
+  simp [step, h, hr, hn, Prog.adv, Prog.isDone]
 
 theorem step_sec_sec {c : Cfg ι σ ρ} {t : Nat} {it : Item ι σ ρ} {rest : List (Item ι σ ρ)}
     {lk lk' : Lock} {upd upd' : σ → σ} {next next' : σ → Prog σ ρ}
     (h : c.thr t = it :: rest) (hr : it.rem = .sec lk upd next) (hn : next c.st = .sec lk' upd' next') :
     step c t = { st := upd c.st,
-                 thr := setThr c.thr t ({ op := it.op, rem := .sec lk' upd' next', pc := it.pc + 1 } :: rest),
+                 thr := setThr c.thr t ({ op := it.op, rem := .sec lk' upd' next', pc := it.pc + 1, held := it.held } :: rest),
                  log := c.log } := by
-  simp [step, h, hr, hn]
+  simp [step, h, hr, hn, Prog.adv, Prog.isDone]
 
 theorem setThr_same (thr : Nat → List (Item ι σ ρ)) (t : Nat) (q : List (Item ι σ ρ)) :
     setThr thr t q t = q := by simp [setThr]
@@ -64,6 +85,20 @@ theorem single_atomic (lk : Lock) (f : σ → σ × ρ) : (Prog.atomic lk f).sin
 
 /-! ## single-section operations: every schedule is the sequential run in completion order -/
 
+theorem single_adv {p : Prog σ ρ} (h : p.single) (s : σ) :
+    ∃ r, (p.adv s).2.1.isDone = some r ∧ p.run s = ((p.adv s).1, r) := by
+  cases p with
+  | done r => exact ⟨r, rfl, rfl⟩
+  | sec lk upd next =>
+    obtain ⟨r, hr⟩ := h s
+    exact ⟨r, by simp [Prog.adv, hr, Prog.isDone], by simp [Prog.run, Prog.adv, hr]⟩
+  | hold lk upd body =>
+    obtain ⟨r, hr⟩ := h s
+    exact ⟨r, by simp [Prog.adv, hr, Prog.isDone], by simp [Prog.run, Prog.adv, hr]⟩
+  | act upd next =>
+    obtain ⟨r, hr⟩ := h s
+    exact ⟨r, by simp [Prog.adv, hr, Prog.isDone], by simp [Prog.run, Prog.adv, hr]⟩
+
 /-- the invariant of `single_section_atomic` -/
 def SeqInv (prog : ι → Prog σ ρ) (s0 : σ) (c : Cfg ι σ ρ) : Prop :=
   (∀ t it, it ∈ c.thr t → it.rem = prog it.op ∧ (prog it.op).single) ∧
@@ -82,20 +117,12 @@ theorem seqInv_step (prog : ι → Prog σ ρ) (s0 : σ) (c : Cfg ι σ ρ) (t :
       by_cases e : u = t
       · subst e; rw [setThr_same] at hm; exact hq u it' (by simp [hth, hm])
       · rw [setThr_other _ _ e] at hm; exact hq u it' hm
-    cases hp : prog it.op with
-    | done r =>
-      rw [step_done hth (hrem.trans hp)]
-      refine ⟨hrest, ?_⟩
-      simp only [List.map_append, List.map_cons, List.map_nil]
-      rw [seqRun_snoc, hl, hp]; simp [Prog.run]
-    | sec lk upd next =>
-      have hsingle := hs
-      rw [hp] at hsingle
-      obtain ⟨r, hr⟩ := hsingle c.st
-      rw [step_sec_done hth (hrem.trans hp) hr]
-      refine ⟨hrest, ?_⟩
-      simp only [List.map_append, List.map_cons, List.map_nil]
-      rw [seqRun_snoc, hl, hp]; simp [Prog.run, hr]
+    obtain ⟨r, hd, hrun⟩ := single_adv hs c.st
+    rw [← hrem] at hd
+    rw [step_complete hth hd]
+    refine ⟨hrest, ?_⟩
+    simp only [List.map_append, List.map_cons, List.map_nil]
+    rw [seqRun_snoc, hl, hrun, hrem]
 
 theorem seqInv_exec (prog : ι → Prog σ ρ) (s0 : σ) (sched : List Nat) :
     ∀ c : Cfg ι σ ρ, SeqInv prog s0 c → SeqInv prog s0 (exec c sched) := by
@@ -135,20 +162,17 @@ theorem orderInv_step (ops : Nat → List ι) (c : Cfg ι σ ρ) (t : Nat) (h : 
         have e' : ¬ (t = u) := fun x => e x.symm
         simp only [setThr_other _ _ e, List.filter_append, List.map_append]
         simpa [e'] using this
-    cases hr : it.rem with
-    | done r => rw [step_done hth hr]; exact complete _ r
-    | sec lk upd next =>
-      cases hn : next c.st with
-      | done r => rw [step_sec_done hth hr hn]; exact complete _ r
-      | sec lk' upd' next' =>
-        rw [step_sec_sec hth hr hn]
-        intro u
-        by_cases e : u = t
-        · subst e
-          have := h u
-          rw [hth] at this
-          simpa [setThr_same] using this
-        · simpa [setThr_other _ _ e] using h u
+    cases hd : (it.rem.adv c.st).2.1.isDone with
+    | some r => rw [step_complete hth hd]; exact complete _ r
+    | none =>
+      rw [step_continue hth hd]
+      intro u
+      by_cases e : u = t
+      · subst e
+        have := h u
+        rw [hth] at this
+        simpa [setThr_same] using this
+      · simpa [setThr_other _ _ e] using h u
 
 theorem orderInv_exec (ops : Nat → List ι) (sched : List Nat) :
     ∀ c : Cfg ι σ ρ, OrderInv ops c → OrderInv ops (exec c sched) := by
@@ -263,29 +287,24 @@ theorem rel_step (hK : K.describes prog) (c a : Cfg ι σ ρ) (t : Nat) (h : Rel
           have hp : K.passes c t = false := by rw [passes_eq K hth]; simp [hno]
           rw [hp]; simp only [Bool.false_eq_true, if_false]
           subst heq
-          cases hr : ic.rem with
-          | done r =>
-            rw [step_done hta hr, ← hst]
-            exact completed c.st r (by rw [step_done hth hr]) (step_done hth hr)
-          | sec lk upd next =>
-            cases hn : next c.st with
-            | done r =>
-              have hn' : next a.st = .done r := by rw [← hst]; exact hn
-              rw [step_sec_done hta hr hn', ← hst]
-              exact completed (upd c.st) r (by rw [step_sec_done hth hr hn]) (step_sec_done hth hr hn)
-            | sec lk' upd' next' =>
-              have hn' : next a.st = .sec lk' upd' next' := by rw [← hst]; exact hn
-              rw [step_sec_sec hta hr hn', ← hst]
-              have hc := step_sec_sec hth hr hn
-              refine ⟨by rw [hc], by rw [hc, hlog], ?_⟩
-              intro u
-              by_cases e : u = t
-              · subst e
-                rw [hc]; simp only [setThr_same]
-                exact ⟨Or.inl (Or.inl ⟨hno, rfl⟩), htail⟩
-              · have := others u e
-                rw [hc] at this ⊢
-                simpa [setThr_other _ _ e] using this
+          cases hd : (ic.rem.adv c.st).2.1.isDone with
+          | some r =>
+            have hd' : (ic.rem.adv a.st).2.1.isDone = some r := by rw [← hst]; exact hd
+            rw [step_complete hta hd', ← hst]
+            exact completed _ r (by rw [step_complete hth hd]) (step_complete hth hd)
+          | none =>
+            have hd' : (ic.rem.adv a.st).2.1.isDone = none := by rw [← hst]; exact hd
+            rw [step_continue hta hd', ← hst]
+            have hc := step_continue hth hd
+            refine ⟨by rw [hc], by rw [hc, hlog], ?_⟩
+            intro u
+            by_cases e : u = t
+            · subst e
+              rw [hc]; simp only [setThr_same]
+              exact ⟨Or.inl (Or.inl ⟨hno, rfl⟩), htail⟩
+            · have := others u e
+              rw [hc] at this ⊢
+              simpa [setThr_other _ _ e] using this
         | inr ctaFresh =>
           obtain ⟨hyes, hrem, hpc, hia⟩ := ctaFresh
           have hprog := hK ic.op hyes
@@ -401,12 +420,9 @@ theorem step_keeps_idle (c : Cfg ι σ ρ) (t : Nat) (us : List Nat) (h : ∀ u,
     have hne : u ≠ t := by
       intro e; subst e
       rw [h u hu] at hth; cases hth
-    cases hr : it.rem with
-    | done r => rw [step_done hth hr]; simp only [setThr_other _ _ hne]; exact h u hu
-    | sec lk upd next =>
-      cases hn : next c.st with
-      | done r => rw [step_sec_done hth hr hn]; simp only [setThr_other _ _ hne]; exact h u hu
-      | sec lk' upd' next' => rw [step_sec_sec hth hr hn]; simp only [setThr_other _ _ hne]; exact h u hu
+    cases hd : (it.rem.adv c.st).2.1.isDone with
+    | some r => rw [step_complete hth hd]; simp only [setThr_other _ _ hne]; exact h u hu
+    | none => rw [step_continue hth hd]; simp only [setThr_other _ _ hne]; exact h u hu
 
 theorem stable_of_stableB (us : List Nat) (sched : List Nat) :
     ∀ c : Cfg ι σ ρ, (∀ u, u ∉ us → c.thr u = []) → K.stableB c us sched = true → K.stable c sched := by
